@@ -132,6 +132,7 @@ FORMS = [
   ('la-compr-var', 'C', u'[‹C.num› for ‹C.num› in [1, 2]][0] + $«C.num»'),
   ('la-lambda', 'C', u'(lambda ‹C.num›: ‹C.num› + 1)($«C.num»)'),
   ('la-local-table', 'C', u'‹@B› = «@A»\nreturn len(‹@B›.lookupRecords(«A.txt»=$«C.key»))'),
+  ('la-local-table-self', 'C', u'‹@C› = «@A»\nreturn [r.«A.num» for r in ‹@C›.lookupRecords(«A.txt»=$«C.key»)]'),
   ('la-table-string', 'C', u"'‹@A›.lookupRecords' + str(len(«@A».all))"),
   ('la-other-table-col', 'C', u'str($«C.txt») + str($«C.aref».«A.txt») + str($«C.aref».«A.num»)'),
   ('la-order-string', 'C', u'"-‹A.num›" + str(«@A».lookupOne(order_by="-«A.num»").«A.num»)'),
@@ -571,7 +572,7 @@ def resolve_rename(d, stt, obs, spec, out):
   """-> (user actions, prelude actions, label list) for one rename spec."""
   ents = sorted(e for e in stt['present'] if '.' in e)
   # tables and the columns most formulas mention are drawn more often
-  hot = ['A', 'B', 'C', 'A', 'C', 'A', 'A.num', 'A.txt', 'A.cat', 'C.num', 'C.key', 'C.txt', 'A.num', 'C.num',
+  hot = ['A', 'B', 'C', 'A', 'C', 'A', 'B', 'C', 'A.num', 'A.txt', 'A.cat', 'C.num', 'C.key', 'C.txt', 'A.num', 'C.num',
          'A.txt', 'C.key', 'C.ref', 'B.ref', 'B.txt', 'C.list', 'C.aref', 'A.self', 'C.fany', 'C.fref']
   pool = ents + [t for t in hot if t in stt['present']]
   names_now = current_names(stt, obs)
@@ -769,7 +770,7 @@ def judge(stt, before, after, reply, out, uas, fn_table):
           continue
     if td:
       bad_text.add(cr)
-      fail('C16:text:%s:%s' % (td[0], label),
+      fail('C16:text:%s:%s' % (td[0], label.split('-')[0]),
            'after %r the formula of %s changed from %r to %r: %s %r' % (uas, where, old, new, td[0], td[1]),
            {'old': old, 'new': new, 'renamed': sorted(name_pairs)})
 
